@@ -118,6 +118,7 @@ char *verif_strdup(const char *s);
 /* close-all loop of process_fork (child side): everything below i that is not
    kept is closed; everything kept, and everything from i on, is as it was */
 #define VERIF_KEEP_MASK (MASK_OF(except[0]) | MASK_OF(except[1]) | MASK_OF(except[2]) | MASK_OF(except[3]) | MASK_OF(except[4]) | MASK_OF(except[5]) | MASK_OF(pipe.read) | MASK_OF(pipe.write))
+#define VERIF_OBJ_KEPT(k) (!FD_OK(except[k]) || g.obj[except[k] & 31] == __CPROVER_loop_entry(g.obj[except[k] & 31]))
 #define VERIF_LOW(n) ((n) >= 32 ? 0xffffffffu : ((1u << (n)) - 1u))
 #define REPROC_VERIF_LOOP_close_all                                            \
   __CPROVER_assigns(i, r, g.os_calls, g.open, g.lib, g.cloexec, g.nonblock, g.rd, g.wr, \
@@ -126,7 +127,14 @@ char *verif_strdup(const char *s);
                            (g.open & VERIF_LOW(i) & ~VERIF_KEEP_MASK) == 0 &&  \
                            (g.open & (VERIF_KEEP_MASK | ~VERIF_LOW(i))) ==     \
                                (__CPROVER_loop_entry(g.open) & (VERIF_KEEP_MASK | ~VERIF_LOW(i))) && \
-                           (g.cloexec & VERIF_KEEP_MASK) == (__CPROVER_loop_entry(g.cloexec) & VERIF_KEEP_MASK)) \
+                           (g.cloexec & VERIF_KEEP_MASK) == (__CPROVER_loop_entry(g.cloexec) & VERIF_KEEP_MASK) && \
+                           (g.rd & VERIF_KEEP_MASK) == (__CPROVER_loop_entry(g.rd) & VERIF_KEEP_MASK) && \
+                           (g.wr & VERIF_KEEP_MASK) == (__CPROVER_loop_entry(g.wr) & VERIF_KEEP_MASK) && \
+                           VERIF_OBJ_KEPT(0) && VERIF_OBJ_KEPT(1) && VERIF_OBJ_KEPT(2) && \
+                           VERIF_OBJ_KEPT(3) && VERIF_OBJ_KEPT(4) && VERIF_OBJ_KEPT(5) && \
+                           g.faults >= __CPROVER_loop_entry(g.faults) && g.faults <= 1000 && \
+                           g.err >= 0 && g.err < 134 && g.first_errno >= 0 && g.first_errno < 134 && \
+                           (__CPROVER_loop_entry(g.faults) == 0 || g.first_errno == __CPROVER_loop_entry(g.first_errno))) \
   __CPROVER_decreases(max_fd + 1 - (long) i)
 #endif
 #ifndef REPROC_VERIF_LOOP_setup_input
